@@ -38,29 +38,11 @@ def sortDepHolds (d : SortDep) : Bool :=
 /-! ### (3) order-dependent today — each one replayed on the real code (harness recipe named) -/
 
 def knownNondeterministic : List SiteKey := [
-  -- recipe infer-mapping, pipeline known-infer: with two fields that are constant strings in
-  -- every branch, the discriminator is whichever the runtime yields first
-  ⟨"internal/ast/compiler/disjunctions_infer_mapping.go",
-   "DisjunctionInferMapping.inferDiscriminatorField", .range, [.firstMatchBreak, .lastWriteWins]⟩,
-  -- recipe consolidate, pipeline known-consolidate: `Schemas.Consolidate` returns one schema per
-  -- package in map order; `LoadSchemas` uses that order as is (`cog inspect` shows it)
-  ⟨"internal/codegen/pipeline.go", "Pipeline.LoadSchemas", .leakCall, [.appendUnsorted]⟩,
-  -- recipe fields-set-default: references differing in letter case match the same field
-  -- (`Matches` is `EqualFold`), the last one iterated wins
-  ⟨"internal/ast/compiler/fields_set_default.go", "FieldsSetDefault.processObject", .range,
-   [.lastWriteWins, .opaqueEffect]⟩,
-  -- pipeline known-interpolate: parameters a = "%b%", b = "x": "%a%" becomes "x" or "%b%"
-  ⟨"internal/codegen/pipeline.go", "Pipeline.interpolate", .range, [.chainedUpdate]⟩,
-  -- pipeline known-converter: two list-of-disjunction options, mappings appended in map order
-  ⟨"internal/languages/converter.go", "ConverterGenerator.FromBuilder", .range, [.appendUnsorted]⟩,
-  -- recipe compose-builders: composed builders appended per plugin type in map order
-  ⟨"internal/veneers/builder/rules.go", "ComposeBuilders", .range,
-   [.allMustSucceed, .appendUnsorted, .unknown]⟩,
-  -- pipeline known-tsmap: a `map[string]any` default is printed member by member
-  ⟨"internal/jennies/typescript/tools.go", "formatValue", .range, [.orderedSideEffect]⟩,
-  -- pipeline known-refresolver: two library import paths both contained in a file name
-  ⟨"internal/simplecue/referenceresolver.go", "referenceResolver.packageForToken", .range,
-   [.firstMatchReturn]⟩
+  -- (empty) The eight sites that were order-dependent on the snapshot — inferDiscriminatorField,
+  -- Consolidate/LoadSchemas, FieldsSetDefault.processObject, Pipeline.interpolate,
+  -- ConverterGenerator.FromBuilder, ComposeBuilders, typescript formatValue,
+  -- referenceResolver.packageForToken — were repaired by `fix:` commits in /repo (see
+  -- known_findings.json "fixed"); their recipes still run, and a relapse is a violation.
 ]
 
 /-! ### (4) reviewed sites -/
